@@ -148,9 +148,27 @@ def Pep.inLib (a : Pep440.Ast) : Bool :=
   a.loc.all (fun | .num n => decide (n < 2 ^ 64) | .str _ => true)
 
 def Maven.releaseQual (q : Bytes) : Bool := q == MavenCV.wGa || q == MavenCV.wFinal || q == MavenCV.wRelease
-/-- `ga`/`final`/`release` directly before `-SNAPSHOT`. -/
+def Maven.dashLike : MavenCV.Sep → Bool
+  | .dot => false
+  | _ => true
+/-- `ga`/`final`/`release` after `-` (or a transition) and directly before `-SNAPSHOT`. -/
 def Maven.finalSnapshot (a : MavenCV.Ast) : Bool :=
-  a.snapshot && (match a.qual with | some (_, q) => Maven.releaseQual q | none => false)
+  a.snapshot && (match a.qual with | some (s, q) => Maven.dashLike s && Maven.releaseQual q | none => false)
+/-- A number `0` after `-` (or a transition) and directly before `-SNAPSHOT`. -/
+def Maven.zeroSnapshot (a : MavenCV.Ast) : Bool :=
+  a.snapshot && (match a.qnum with | some (s, n) => Maven.dashLike s && n == 0 | none => false)
+/-- The qualifier is one of those Maven orders at or below the release (after the
+`a`/`b`/`m` shortcut): everything else is "unknown" or `sp`. -/
+def Maven.knownQual (a : MavenCV.Ast) : Bool :=
+  match a.qual with
+  | none => true
+  | some (_, q) =>
+    ((q == [97] || q == [98] || q == [109]) && (match a.qnum with | some (.trans, _) => true | _ => false)) ||
+    [MavenCV.wAlpha, MavenCV.wBeta, MavenCV.wMilestone, MavenCV.wRc, MavenCV.wCr, MavenCV.wSnapshot,
+     MavenCV.wGa, MavenCV.wFinal, MavenCV.wRelease].contains q
+/-- An unknown (or `sp`) qualifier attached with a dot. -/
+def Maven.dotUnknown (a : MavenCV.Ast) : Bool :=
+  (match a.qual with | some (.dot, _) => true | _ => false) && !Maven.knownQual a
 def Maven.inLib (a : MavenCV.Ast) : Bool :=
   a.nums.all (fun n => decide (n < 2 ^ 63 - 1)) &&
   (match a.qnum with | some (_, n) => decide (n < 2 ^ 63 - 1) | none => true)
